@@ -112,7 +112,9 @@ fn apply(r: &mut Ready, case: &Case, op: &Op, ctx: &mut Ctx, step: &mut Step) {
             step.validate = Some(r.net.validate(&vxr, &vyr, LEARN_TOL));
         }
         Op::Predict => {
-            let _ = r.net.predict(&r.xs[0]);
+            if let Some(x) = r.xs.first().or(r.vx.first()) {
+                let _ = r.net.predict(x);
+            }
         }
         Op::PredictBatch => {
             let xr: Vec<&tensor::Tensor> = r.xs.iter().chain(r.vx.iter()).collect();
@@ -175,8 +177,8 @@ impl Property for C09 {
 
     fn runs(&self, tier: Tier) -> u64 {
         match tier {
-            Tier::Quick => 10000,
-            Tier::Thorough => 1000000,
+            Tier::Quick => 40000,
+            Tier::Thorough => 2000000,
         }
     }
 
@@ -187,6 +189,7 @@ impl Property for C09 {
             "dropout_in_conv",
             "dropout_in_feedback",
             "learn_with_validation",
+            "empty_training_set",
             "learn_then_learn",
             "validate_outside_training",
             "epochs_ge_2_with_validation",
@@ -211,7 +214,15 @@ impl Property for C09 {
             }
         }
         let scale_case = scale_case && !very_wide(&net);
-        let n = if scale_case { rng.range(40, 150) } else { rng.range(1, 8) };
+        // now and then an empty training set: `learn` then has no batch to step on, but it
+        // still toggles the flags, validates every epoch and has to leave evaluation mode
+        let n = if scale_case {
+            rng.range(40, 150)
+        } else if rng.chance(0.03) {
+            0
+        } else {
+            rng.range(1, 8)
+        };
         let train = gen_data(rng, &net, n);
         let v = if scale_case { rng.range(65, 200) } else { rng.range(1, 6) };
         let val = gen_data(rng, &net, v);
@@ -267,6 +278,7 @@ impl Property for C09 {
         stats.probe("dropout_in_conv", in_conv);
         stats.probe("dropout_in_feedback", in_fb);
         let learns: Vec<usize> = case.ops.iter().enumerate().filter(|(_, o)| matches!(o, Op::Learn { .. })).map(|(i, _)| i).collect();
+        stats.probe("empty_training_set", case.train.len() == 0);
         stats.probe("learn_with_validation", case.ops.iter().any(|o| matches!(o, Op::Learn { with_val: true, .. })));
         stats.probe("epochs_ge_2_with_validation", case.ops.iter().any(|o| matches!(o, Op::Learn { with_val: true, epochs, .. } if *epochs >= 2)));
         stats.probe("early_stop_fired", false);
